@@ -26,6 +26,7 @@ class ScanState:
 
     def reset(self):
         self.start = self.end = self.property_start = self.property_end = self.property_delimiter = -1
+        self.expression = 0
 
 
 
@@ -74,7 +75,7 @@ def scan(source: str, callback: callable):
 
         scanner.start = scanner.pos
         block_end = scanner.eat(Chars.RightCurly)
-        if block_end or scanner.eat(Chars.Semicolon):
+        if block_end or (not state.expression and scanner.eat(Chars.Semicolon)):
             # Block or property end
             if state.property_start != -1:
                 # We have pending property
